@@ -41,7 +41,9 @@ VSame(a, b) ==
   /\ CASE a.t = "int" -> a.v = b.v
         [] a.t = "bool" -> a.v = b.v
         [] a.t = "dec" -> a.h = b.h
-        [] a.t = "str" -> "v" \in DOMAIN a /\ "v" \in DOMAIN b /\ a.v = b.v
+        [] a.t = "str" -> IF "v" \in DOMAIN a THEN "v" \in DOMAIN b /\ a.v = b.v ELSE "b" \in DOMAIN b /\ a.b = b.b
+        [] a.t \in {"bigint", "bigdec"} -> a.w = b.w
+        [] a.t = "obj" -> a.h = b.h
         [] a.t = "raw" -> a.b = b.b
         [] a.t = "null" -> a.ty = b.ty
         [] a.t \in {"tup", "tab"} -> a.ty = b.ty /\ Len(a.v) = Len(b.v) /\ \A j \in DOMAIN a.v : VSame(a.v[j], b.v[j])
@@ -72,6 +74,8 @@ ObsVar(o, n) == LET idx == {j \in DOMAIN o.vars : o.vars[j].n = n} IN
 IsSafeName(n) == n \in {"$S", "$T", "$U", "$ARG"}
 DumpWhy(o, S) ==
   IF ~AllUniform(o) THEN "a table is not uniform or a tuple does not match its structure"
+  ELSE IF \E j \in DOMAIN o.vars : o.vars[j].n = "$S" /\ ObsType(o.vars[j].val).m # "int"
+    THEN "the $-variable changed its major type"
   ELSE IF S.unk THEN (IF ~NoResidue(o) THEN "control state left behind" ELSE "")
   ELSE IF \E n \in DOMAIN S.vars : ~VEq(ObsVar(o, n).val, S.vars[n])
     THEN LET n == CHOOSE n \in DOMAIN S.vars : ~VEq(ObsVar(o, n).val, S.vars[n]) IN
@@ -109,12 +113,55 @@ RunWhy(o, S) ==      \* S = ideal state after the run
   ELSE IF ~NoResidue(o) THEN "control state left behind"
   ELSE ""
 
+\* static type sty (as the parser reported it) against an observed value
+StaticMatches(sty, v) ==
+  \/ sty.m = "undef"                                         \* opaque: nothing promised
+  \/ LET tv == ObsType(v) IN
+     /\ sty.m = tv.m /\ sty.l = tv.l
+     /\ (IsNull(v) \/ tv.m # "row" \/ sty.d = <<>>
+         \/ (Len(sty.d) = Len(TypeOf(v).d) /\ \A j \in DOMAIN sty.d : sty.d[j] = "undef" \/ sty.d[j] = TypeOf(v).d[j]))
+SameVars(o1, o2) ==
+  /\ \A j \in DOMAIN o1.vars : \E q \in DOMAIN o2.vars : o2.vars[q].n = o1.vars[j].n /\ VSame(o1.vars[j].val, o2.vars[q].val)
+                                                      /\ o1.vars[j].sty = o2.vars[q].sty /\ o1.vars[j].safe = o2.vars[q].safe
+  /\ \A q \in DOMAIN o2.vars : \E j \in DOMAIN o1.vars : o2.vars[q].n = o1.vars[j].n
+
 StaticRejectable(S) == S.sig = "err" /\ S.err.kind = "OTHER" /\ S.err.name \in {"type", "rank", "tuple item", "table elem", "const"}
 
 (* ------------------------------ one step ------------------------------ *)
 \* returns [C |-> new contexts, why |-> "" or reason]
-StepResult(st, o, c) ==
-  CASE st.op \in {"exec", "step"} /\ Has(st, "maybe_reject") ->
+StepResult(st, o, c, sc) ==
+  CASE st.op = "expr" ->
+         \* C02 relation: whenever the parser gives the expression a defined type, the evaluation yields exactly
+         \* that type; C05: evaluating a side-effect-free expression twice gives equal results
+         [C |-> c, why |->
+            IF o.oc \notin {"ok", "parse_error", "runtime_error"} THEN "outcome outside the alphabet: " \o o.oc
+            ELSE IF ~NoResidue(o) THEN "control/parse state left behind by an expression"
+            ELSE IF o.oc = "ok" /\ ~StaticMatches(o.sty, o.val)
+                 THEN "static type " \o ToJson(o.sty) \o " but the value is " \o ToJson(ObsType(o.val))
+            ELSE IF o.oc = "ok" /\ ~Uniform(o.val) THEN "the value is not uniform / well formed"
+            ELSE IF o.oc = "ok" /\ Has(o, "val2") /\ ~VSame(o.val, o.val2) THEN "two evaluations in the same state differ"
+            ELSE IF o.oc = "ok" /\ Has(st, "ast") /\ ~CtxOf(c, st.ctx).unk
+                 THEN LET r == Eval(st.ast, CtxOf(c, st.ctx)) IN
+                      IF Failed(r.S) THEN (IF r.S.err.name = "wide" THEN "" ELSE "the specification raises an error, the evaluation succeeded")
+                      ELSE IF ~VEq(o.val, r.v) THEN "value differs; expected " \o ToJson(r.v) ELSE ""
+            ELSE ""]
+    [] Has(st, "same_as") ->
+         \* C02 consequence: what ran without error as one unit (step same_as) behaves the same statement by statement
+         LET b == sc.obs[st.same_as] IN
+         [C |-> c, why |->
+            IF st.op = "dump" THEN
+                 (IF sc.obs[st.after].oc # "ok" THEN ""
+                  ELSE IF ~SameVars(o, b) THEN "final variables differ between batch and statement-at-a-time execution" ELSE "")
+            ELSE IF b.oc # "ok" THEN ""              \* the unit did not compile and run without error: nothing is promised
+            ELSE IF o.oc # "ok" THEN "ran as one unit, but statement-at-a-time reported " \o o.oc \o " " \o Fld(o, "name", "")
+            ELSE IF o.out # b.out THEN "output differs between batch and statement-at-a-time execution"
+            ELSE ""]
+    [] Has(st, "free") ->
+         \* not judged against the ideal layer (only the outcome alphabet and invariants); the monitor loses track
+         [C |-> PutCtx(c, st.ctx, [State0 EXCEPT !.unk = TRUE]),
+          why |-> IF o.oc \notin {"ok", "parse_error", "runtime_error"} THEN "outcome outside the alphabet: " \o o.oc
+                  ELSE IF ~NoResidue(o) THEN "control state left behind" ELSE ""]
+    [] st.op \in {"exec", "step"} /\ Has(st, "maybe_reject") ->
          \* a text derived by cutting/corrupting a valid program: if it is rejected nothing may have changed;
          \* if the parser accepts it the monitor does not know its meaning and loses track of the context
          IF o.oc = "parse_error"
@@ -167,7 +214,7 @@ Next ==
               /\ Report(sc.id, k + 1, verdict', st, <<>>)
               /\ k' = Len(sc.steps) /\ C' = C /\ i' = i
          ELSE LET o == sc.obs[k + 1]
-                  r == StepResult(st, o, C)
+                  r == StepResult(st, o, C, sc)
               IN  /\ verdict' = r.why
                   /\ Report(sc.id, k + 1, r.why, st, o)
                   /\ C' = r.C /\ k' = k + 1 /\ i' = i
